@@ -1,10 +1,18 @@
 package main
 
 import (
+	"context"
+	"encoding/base64"
 	"fmt"
+	"net/http/httptest"
 	"sort"
 	"strconv"
 	"strings"
+
+	"google.golang.org/genproto/googleapis/api/annotations"
+	"google.golang.org/protobuf/proto"
+	"google.golang.org/protobuf/reflect/protoreflect"
+	"google.golang.org/protobuf/types/dynamicpb"
 )
 
 func init() {
@@ -308,6 +316,9 @@ func runRouting(c *Ctx, prop string) {
 		c.SpecFail("fixture", prop, err.Error(), "descriptors", prop+"/fixture", "cannot build descriptors")
 		return
 	}
+	if prop == "C01" {
+		c01API(c)
+	}
 	nSets := c.N(500, 12000)
 	for si := 0; si < nSets; si++ {
 		rules := genRuleSet(c, 3)
@@ -560,5 +571,158 @@ func runLexerCases(c *Ctx, prop string) {
 		}
 		c.Correspond("lextmpl", join("lextmpl", runesOf(s)), implLex(larkingLexTemplate, s), s != "")
 		c.Correspond("lexpath", join("lexpath", runesOf(s)), implLex(larkingLexPath, s), s != "")
+	}
+}
+
+// c01API: what the property observes — the method and the request message recorded by
+// handlers behind Mux.ServeHTTP, for typed path variables of every scalar kind.
+func c01API(c *Ctx) {
+	type rec struct {
+		method string
+		msg    *dynamicpb.Message
+	}
+	var got *rec
+	rules := []struct {
+		name string
+		rule *annotations.HttpRule
+	}{
+		{"S", getRule("/api1/s/{name}")}, {"I", getRule("/api1/i/{i32}")}, {"U", getRule("/api1/u/{u64}")},
+		{"F", getRule("/api1/f/{flag}")}, {"K", getRule("/api1/k/{kind}")}, {"D", getRule("/api1/d/{data}")},
+		{"X", getRule("/api1/x/{db}")}, {"N", getRule("/api1/n/{nested.s}/n/{nested.n}")},
+		{"M", getRule("/api1/m/{name=shelves/*/books/*}/tail")}, {"V", getRule("/api1/v/{other_name=**}:go")},
+		{"W", getRule("/api1/w/{i64}/{s32}/{f32}")},
+	}
+	var ms []*MethodSpec
+	for _, r := range rules {
+		r := r
+		ms = append(ms, &MethodSpec{Name: "A" + r.name, In: "Req", Out: "Reply", Rule: r.rule,
+			Unary: func(ctx context.Context, in *dynamicpb.Message) (proto.Message, error) {
+				got = &rec{"A" + r.name, in}
+				return dynamicpb.NewMessage(in.Descriptor().ParentFile().Messages().ByName("Reply")), nil
+			}})
+	}
+	fx, err := NewFixture(ms, nil)
+	if err != nil || fx.RegErr != nil || fx.RegPanic != nil {
+		c.SpecFail("fixture", "c01 api", fmt.Sprint(err, fx.RegErr, fx.RegPanic), "", "C01/fixture", "fixture")
+		return
+	}
+	set := func(m *dynamicpb.Message, path string, v protoreflect.Value) {
+		cur := protoreflect.Message(m)
+		parts := strings.Split(path, ".")
+		for i, p := range parts {
+			fd := cur.Descriptor().Fields().ByName(protoreflect.Name(p))
+			if i == len(parts)-1 {
+				cur.Set(fd, v)
+			} else {
+				cur = cur.Mutable(fd).Message()
+			}
+		}
+	}
+	type tcase struct {
+		path   string
+		method string
+		build  func(m *dynamicpb.Message)
+	}
+	var cases []tcase
+	for _, s := range []string{"x", "hello", "a.b-c_d~e", "é日本", "0", "null", "true", "(a)!$'*,;@=+"} {
+		s := s
+		cases = append(cases, tcase{"/api1/s/" + s, "AS", func(m *dynamicpb.Message) { set(m, "name", protoreflect.ValueOfString(s)) }})
+		cases = append(cases, tcase{"/api1/m/shelves/" + s + "/books/b1/tail", "AM", func(m *dynamicpb.Message) { set(m, "name", protoreflect.ValueOfString("shelves/"+s+"/books/b1")) }})
+		cases = append(cases, tcase{"/api1/v/" + s + "/deep/" + s + ":go", "AV", func(m *dynamicpb.Message) { set(m, "other_name", protoreflect.ValueOfString(s+"/deep/"+s)) }})
+	}
+	for _, n := range []int64{0, 1, -1, 42, 2147483647, -2147483648} {
+		n := n
+		cases = append(cases, tcase{fmt.Sprintf("/api1/i/%d", n), "AI", func(m *dynamicpb.Message) { set(m, "i32", protoreflect.ValueOfInt32(int32(n))) }})
+		cases = append(cases, tcase{fmt.Sprintf("/api1/n/ns/n/%d", n), "AN", func(m *dynamicpb.Message) {
+			set(m, "nested.s", protoreflect.ValueOfString("ns"))
+			set(m, "nested.n", protoreflect.ValueOfInt32(int32(n)))
+		}})
+	}
+	for _, n := range []uint64{0, 1, 4294967296, 18446744073709551615} {
+		n := n
+		cases = append(cases, tcase{fmt.Sprintf("/api1/u/%d", n), "AU", func(m *dynamicpb.Message) { set(m, "u64", protoreflect.ValueOfUint64(n)) }})
+	}
+	cases = append(cases, tcase{"/api1/w/-9223372036854775808/-7/4294967295", "AW", func(m *dynamicpb.Message) {
+		set(m, "i64", protoreflect.ValueOfInt64(-9223372036854775808))
+		set(m, "s32", protoreflect.ValueOfInt32(-7))
+		set(m, "f32", protoreflect.ValueOfUint32(4294967295))
+	}})
+	for _, b := range []bool{true, false} {
+		b := b
+		cases = append(cases, tcase{fmt.Sprintf("/api1/f/%v", b), "AF", func(m *dynamicpb.Message) { set(m, "flag", protoreflect.ValueOfBool(b)) }})
+	}
+	for _, k := range []struct {
+		text string
+		n    protoreflect.EnumNumber
+	}{{"ALPHA", 1}, {"BETA", 2}, {"NEG", -3}, {"KIND_UNSPECIFIED", 0}, {"2", 2}, {"-3", -3}} {
+		k := k
+		cases = append(cases, tcase{"/api1/k/" + k.text, "AK", func(m *dynamicpb.Message) { set(m, "kind", protoreflect.ValueOfEnum(k.n)) }})
+	}
+	for _, d := range []float64{0, 1.5, -2.25, 1e300} {
+		d := d
+		cases = append(cases, tcase{"/api1/x/" + strconv.FormatFloat(d, 'g', -1, 64), "AX", func(m *dynamicpb.Message) { set(m, "db", protoreflect.ValueOfFloat64(d)) }})
+	}
+	for n := 0; n < 8; n++ {
+		b := make([]byte, n)
+		for i := range b {
+			b[i] = byte(0xf8 + (i*37+n)%8) // bytes that need '+' '/' or '-' '_'
+		}
+		if n%2 == 0 {
+			c.Rng.Read(b)
+		}
+		for _, e := range []*base64.Encoding{base64.StdEncoding, base64.RawStdEncoding, base64.URLEncoding, base64.RawURLEncoding} {
+			text := e.EncodeToString(b)
+			if strings.ContainsAny(text, "/+") || text == "" {
+				continue // not a single clean path segment
+			}
+			b := append([]byte(nil), b...)
+			cases = append(cases, tcase{"/api1/d/" + text, "AD", func(m *dynamicpb.Message) { set(m, "data", protoreflect.ValueOfBytes(b)) }})
+		}
+	}
+	// the bound field holds the PATH text even when the query names the same field
+	for _, tc := range append([]tcase(nil), cases...) {
+		switch tc.method {
+		case "AS", "AM":
+			cases = append(cases, tcase{tc.path + "?name=rival", tc.method, tc.build})
+		case "AI":
+			cases = append(cases, tcase{tc.path + "?i32=555", tc.method, tc.build})
+		case "AD":
+			cases = append(cases, tcase{tc.path + "?data=QUJD", tc.method, tc.build})
+		}
+	}
+	for _, tc := range cases {
+		got = nil
+		rec, pn := fx.Serve(httptest.NewRequest("GET", tc.path, nil))
+		c.Eval("api-bind", tc.path, true)
+		c.Class("api:" + tc.method)
+		want := fx.NewMsg("Req")
+		tc.build(want)
+		switch {
+		case pn != nil:
+			c.SpecFail("api-bind", "GET "+tc.path, fmt.Sprint("panic: ", pn), prototextS(want), "C01/api/panic", "panic")
+		case rec.Code != 200 || got == nil:
+			c.SpecFail("api-bind", "GET "+tc.path, fmt.Sprintf("%d %s", rec.Code, truncS(rec.Body.String(), 120)), "dispatched to "+tc.method, "C01/api/not-dispatched/"+tc.method, "a path instantiated from the method's template is not dispatched to it")
+		case got.method != tc.method:
+			c.SpecFail("api-bind", "GET "+tc.path, "dispatched to "+got.method, tc.method, "C01/api/wrong-method", "dispatched to a method whose rules do not match")
+		case !proto.Equal(got.msg, want):
+			c.SpecFail("api-bind", "GET "+tc.path, prototextS(got.msg), prototextS(want), "C01/api/fields/"+tc.method, "the bound fields do not hold exactly the path text converted to their type (or another field was set)")
+		}
+	}
+	// near misses must not reach any handler
+	for _, p := range []string{"/api1/s", "/api1/s/", "/api1/s/a/b", "/api1/i/x", "/api1/i/1.5", "/api1/i/2147483648", "/api1/u/-1", "/api1/f/yes", "/api1/k/NOPE",
+		"/api1/d/!!!", "/api1/m/shelves/s/books", "/api1/m/shelves/s/books/b/tail/x", "/api1/v/a/b", "/api1/v/a:stop", "/api1/s:x", "/api1:s/x", "/api1/n/ns/n", "/api1/w/1/2"} {
+		got = nil
+		rec, pn := fx.Serve(httptest.NewRequest("GET", p, nil))
+		c.Eval("api-near-miss", p, true)
+		c.Class("api:near-miss")
+		if pn != nil {
+			c.SpecFail("api-near-miss", "GET "+p, fmt.Sprint("panic: ", pn), "no dispatch", "C01/api/panic", "panic")
+		} else if got != nil || rec.Code == 200 {
+			m := "?"
+			if got != nil {
+				m = got.method + " " + prototextS(got.msg)
+			}
+			c.SpecFail("api-near-miss", "GET "+p, "dispatched: "+m, "no dispatch (4xx)", "C01/api/near-miss-dispatched", "a path no template matches (or whose capture does not convert) reached a handler")
+		}
 	}
 }
